@@ -488,6 +488,14 @@ fn shape_cfg(prop: &str, c: &mut LevelCfg, rng: &mut Rng) {
         }
         "c02" => {
             c.p_static = 5;
+            // every 10th plan: a long registration sequence with many multi-dependency systems
+            if rng.chance(1, 10) {
+                c.n = (66, 160);
+                c.p_dep = 45;
+                c.max_deps = 4;
+                c.p_old_dep = 80;
+                c.p_barrier = 1;
+            }
         }
         _ => {}
     }
